@@ -813,6 +813,11 @@ func (ex *exec) applyGhost(st *State, s ast.Stmt, when string) {
 			env2.revealing = true
 			body := env2.eval(r.Args[0]).(*Term)
 			st.assume(Eq(ap, body))
+			if c, ok := r.Args[0].(*ast.CallExpr); ok {
+				if id, ok := c.Fun.(*ast.Ident); ok {
+					st.name("reveal:"+id.Name, Eq(ap, body))
+				}
+			}
 		default:
 			ex.fail(s.Pos(), "unknown proof rule %s", r.Rule)
 		}
